@@ -184,6 +184,24 @@ pub mod verif_hooks {
                 with_channel,
             )
         }
+        #[cfg(feature = "async-tokio")]
+        /// async (tokio) service discovery ingest of a response packet
+        pub async fn add_response_async(
+            &mut self,
+            packet: Packet<'_>,
+            service_name: &Name<'_>,
+            full_name: &Name<'_>,
+            with_channel: bool,
+        ) -> Vec<crate::InstanceInformation> {
+            crate::async_discovery::verif_add_response(
+                packet,
+                service_name,
+                full_name,
+                &mut self.0,
+                with_channel,
+            )
+            .await
+        }
     }
 }
 
